@@ -34,13 +34,8 @@ let rd_vstep r : float vstep =
   | "cs" -> let rr = num r in let th = num r in let ph = num r in VCallSpherical (rr, th, ph)
   | "cr" -> let al = num r in let dim = integer r in VCallRotation (al, z_of_int dim)
   | s -> failwith ("unknown vector step " ^ s)
-let vec_history r v =
-  if not !hist then Ok v
-  else begin
-    let k = integer r in
-    let steps = List.init k (fun _ -> rd_vstep r) in
-    vhistory fops Float.hypot v steps
-  end
+let rd_steps r = if not !hist then [] else (let k = integer r in List.init k (fun _ -> rd_vstep r))
+let vec_history r v = vhistory fops Float.hypot v (rd_steps r)
 let rd_vec r = let v = list r in vec_history r v
 let rd_vec3 r = let a = num r in let b = num r in let c = num r in vec_history r [a; b; c]
 
@@ -75,8 +70,8 @@ let handler r =
   let op = match word r with "hist" -> hist := true; word r | o -> o in
   match op with
   | "rot" -> let alpha = num r in let dim = integer r in
-      out_res (let* axis = rd_vec r in
-               let* m = rotation_matrix fops alpha (z_of_int dim) axis in Ok (put_mat m))
+      let start = list r in let h = rd_steps r in
+      put_res put_mat (rotation_of_object fops Float.hypot alpha (z_of_int dim) start h)
   | "rotdef" -> let alpha = num r in let dim = integer r in
       put_res put_mat (rotation_matrix fops alpha (z_of_int dim) [0.0; 0.0; 1.0])
   | "rotcomp" -> let a = num r in let b = num r in
@@ -99,8 +94,8 @@ let handler r =
                let* back = vecm fops w m in Ok (put_fl w; put_fl back))
   | "sph" -> let rr = num r in let th = num r in let ph = num r in put_fl (spherical fops rr th ph)
   | "spha" -> let rr = num r in let th = num r in let ph = num r in
-      out_res (let* axis = rd_vec r in
-               let* u = spherical_axis fops Float.hypot rr th ph axis in Ok (put_fl u))
+      let start = list r in let h = rd_steps r in
+      put_res put_fl (spherical_of_object fops Float.hypot rr th ph start h)
   | "sphad" -> let rr = num r in let th = num r in let ph = num r in let h = num r in
       out_res (let* axis = rd_vec3 r in
                let* v = spherical_axis fops Float.hypot rr th ph axis in
